@@ -427,6 +427,16 @@ fn run(c: &mut Case) {
             check_slice(c, &s[..cut]);
         }
     }
+    // long slices (the decoders must never look beyond the vint and never panic, whatever the length)
+    if idx % 16 == 3 {
+        for len in [10usize, 11, 15, 16, 17, 31, 32, 33, 63, 64, 65, 255, 256, 257, 4096] {
+            for first in [0x00u8, 0x01, 0x02, 0x40, 0x80, 0xFF] {
+                let mut sl = c.rng.bytes(len);
+                sl[0] = first;
+                check_slice(c, &sl);
+            }
+        }
+    }
     if idx == 0 {
         c.set_sample(J::obj().set("kind", J::s("shard")).set("unsigned_range", J::s(format!("[{},{})", ulo, uhi))).set("signed_shard", J::s(format!("[{},{})", slo as i64 - ssz / 2 - 2, shi as i64 - ssz / 2 - 2))).set(
             "example_checks",
